@@ -157,11 +157,12 @@ theorem checkData_no_crash (d : DataShape) (site : String) : checkData d ≠ .cr
   unfold checkData; repeat (first | split | simp [invalid])
 
 theorem modelMessage_no_crash (st : St) (s : Sess) (m : ClientMessage) (hv : checkValid Fc m = .ok) (ht : m.mtype = "message")
-    (site : String) : modelMessage st s m ≠ .crash site := by
+    (site : String) : modelMessage Fc st s m ≠ .crash site := by
   obtain ⟨mm, hm, _⟩ := valid_message hv ht
-  unfold modelMessage
+  have hmedia : Fc.mediaTablesReviewed = true := by decide
+  unfold modelMessage mediaCode
   rw [hm]
-  simp only []
+  simp only [hmedia, if_true]
   split
   · cases hd : checkData mm.data with
     | ok => simp only []; repeat (first | split | simp)
@@ -441,16 +442,17 @@ theorem route_by (s : Sess) (kind : String) (rc : Recipient) (hv : Bool) (k : St
   all_goals simp_all [Sess.inBy]
 
 theorem modelMessage_by (st : St) (s : Sess) (m : ClientMessage) (o : Obs) (next : St) (hv : checkValid Fc m = .ok)
-    (ht : m.mtype = "message") (h : modelMessage st s m = .ok o next) :
+    (ht : m.mtype = "message") (h : modelMessage Fc st s m = .ok o next) :
     ∀ k, k ∈ o.bMust ++ o.bMay → k ∈ addrSession st s m := by
   intro k hk
   obtain ⟨mm, hr, hmv⟩ := valid_message hv ht
   have hdv := message_data_valid hmv
   unfold addrSession
   simp only [ht, if_true]
-  unfold modelMessage at h
+  have hmedia : Fc.mediaTablesReviewed = true := by decide
+  unfold modelMessage mediaCode at h
   rw [hr] at h
-  simp only [hdv, fwdKind, if_true] at h ⊢
+  simp only [hdv, fwdKind, hmedia, if_true] at h ⊢
   simp only [hr]
   repeat' split at h
   all_goals (first | (cases h; done) | skip)
@@ -862,5 +864,29 @@ def factsWithoutValidation : Facts := { Fc with validateBeforeDispatch := false 
 theorem C10_total_needs_validation :
     processFrame factsWithoutValidation (stOf userInRoom false) (frameOf roomWithoutRoom) =
       .crash "processRoom: message.Room" := by decide
+
+/-- The media code behind the handlers is only covered through the reviewed tables: with one more
+panicking expression in it (an unchecked `value.(float64)` on a payload member, say) a `requestoffer`
+for the bystander's stream - valid for `CheckValid` - is a crash. -/
+def factsWithUnreviewedMediaCode : Facts := { Fc with mediaTablesReviewed := false }
+
+def requestOfferToBystander : ClientMessage :=
+  { msgToRoom with
+    message := some { recipient := { rtype := "session", sid := .by, uid := .empty }, dataNonEmpty := true, dataValid := true,
+                      data := { jsonOk := true, dtype := "requestoffer", roomType := .valid, sdp := .none } } }
+
+def stMcu (s : Sess) : St :=
+  { world := { mcu := true, transient := [], virt := [] }, conn := .session s, dialoutState := false }
+
+theorem C10_total_needs_media_review :
+    checkValid factsWithUnreviewedMediaCode requestOfferToBystander = .ok ∧
+    processFrame factsWithUnreviewedMediaCode (stMcu userInRoom) (frameOf requestOfferToBystander) =
+      .crash "media code: a type assertion / index expression / map write / dereference that is not a reviewed one" := by
+  decide
+
+/-- With the tables as they are the same message is media-server work: replies from the media server for
+the sender, possibly a message for the addressed bystander. -/
+example : processFrame Fc (stMcu userInRoom) (frameOf requestOfferToBystander) =
+    .ok (mcuObs { rtype := "session", sid := .by, uid := .empty }) (stMcu userInRoom) := by decide
 
 end SigModel.ShapesClient
